@@ -182,3 +182,44 @@ Definition vacant_zero_Qc := vacant_zero_field Qc QcO Qcinv QcO_ring QcO_div (ba
 Definition shape_Qc := shape_field Qc QcO Qcinv QcO_ring QcO_div (batt Qc) KQc batt_ok_Qc KQc_laws.
 Definition peak_Qc := peak_field Qc QcO Qcinv QcO_ring QcO_div (batt Qc) KQc batt_ok_Qc KQc_laws.
 Definition total_Qc := total_field Qc QcO Qcinv QcO_ring QcO_div (batt Qc) KQc batt_ok_Qc KQc_laws.
+
+(* the accumulated peak over Qc: max(0, max over columns of the column sum) *)
+Lemma omax_Qc_cases (a b : Qc) :
+  ((this a <= this b)%Q /\ omax QcO a b = b) \/ ((this b <= this a)%Q /\ omax QcO a b = a).
+Proof.
+  cbn [omax QcO]. destruct (Q.max_spec (this a) (this b)) as [[Hlt He]|[Hle He]].
+  - left. split; [now apply Qlt_le_weak|]. transitivity (Q2Qc (this b)); [apply Q2Qc_eq; exact He|apply Q2Qc_this].
+  - right. split; [exact Hle|]. transitivity (Q2Qc (this a)); [apply Q2Qc_eq; exact He|apply Q2Qc_this].
+Qed.
+
+Lemma peak_of_spec_Qc (cs : list (list Qc)) :
+  (0 <= this (peak_of QcO cs))%Q
+  /\ (forall c, In c cs -> (this (fsum QcO c) <= this (peak_of QcO cs))%Q)
+  /\ (peak_of QcO cs = Q2Qc 0 \/ exists c, In c cs /\ peak_of QcO cs = fsum QcO c).
+Proof.
+  induction cs as [|c cs IH].
+  - cbn. split; [apply Qle_refl|]. split; [intros c []|now left].
+  - destruct IH as (H0 & Hle & Hatt).
+    change (peak_of QcO (c :: cs)) with (omax QcO (peak_of QcO cs) (fsum QcO c)).
+    destruct (omax_Qc_cases (peak_of QcO cs) (fsum QcO c)) as [[Hc Hm]|[Hc Hm]]; rewrite Hm.
+    + split; [eapply Qle_trans; eauto|]. split.
+      * intros c' [<-|Hin]; [apply Qle_refl|]. eapply Qle_trans; [apply (Hle _ Hin)|exact Hc].
+      * right. exists c. split; [now left|reflexivity].
+    + split; [exact H0|]. split.
+      * intros c' [<-|Hin]; [exact Hc|]. now apply Hle.
+      * destruct Hatt as [Hz|[c' [Hin He]]]; [now left|]. right. exists c'. split; [now right|exact He].
+Qed.
+
+Lemma peak_char_Qc (T : Qc) net ops st :
+  simulate QcO KQc T net ops = Some st ->
+  (0 <= this (peak st))%Q
+  /\ (forall col, In col (rates_by_period st) -> (this (fsum QcO col) <= this (peak st))%Q)
+  /\ (peak st = Q2Qc 0 \/ exists col, In col (rates_by_period st) /\ peak st = fsum QcO col).
+Proof.
+  intro H. rewrite (peak_Qc T net ops st H).
+  destruct (peak_of_spec_Qc (cols st)) as (H0 & Hle & Hatt). unfold rates_by_period.
+  split; [exact H0|]. split.
+  - intros col Hin. apply Hle. now apply in_rev.
+  - destruct Hatt as [Hz|[c [Hin He]]]; [now left|]. right. exists c. split; [|exact He].
+    now apply -> in_rev.
+Qed.
